@@ -34,14 +34,15 @@ Record ymod := {
   ym_build : option custom_build;
   ym_env_local : option env; ym_env_export : option env; ym_env_global : option env;
   ym_blocklist : option (list str); ym_allowlist : option (list str);
-  ym_srcdir : option str; ym_is_build_dep : bool; ym_is_global_build_dep : bool }.
+  ym_srcdir : option str; ym_is_build_dep : bool; ym_is_global_build_dep : bool;
+  ym_download : option download }.
 
 Definition ymod_default : ymod :=
   {| ym_name := None; ym_context := CNone; ym_depends := None; ym_selects := None; ym_uses := None;
      ym_provides := None; ym_provides_unique := None; ym_conflicts := None; ym_notify_all := false;
      ym_sources := None; ym_tasks := None; ym_build := None; ym_env_local := None; ym_env_export := None;
      ym_env_global := None; ym_blocklist := None; ym_allowlist := None; ym_srcdir := None;
-     ym_is_build_dep := false; ym_is_global_build_dep := false |}.
+     ym_is_build_dep := false; ym_is_global_build_dep := false; ym_download := None |}.
 
 Record ydoc := {
   d_contexts : option (list yctx); d_builders : option (list yctx);
@@ -127,7 +128,8 @@ Definition module_from (defaults : module) (name : str) (context : option str) :
      m_relpath := m_relpath defaults; m_srcdir := m_srcdir defaults;
      m_build_dep_files := m_build_dep_files defaults; m_is_build_dep := m_is_build_dep defaults;
      m_is_global_build_dep := m_is_global_build_dep defaults; m_is_binary := m_is_binary defaults;
-     m_context_id := m_context_id defaults; m_defined_in := m_defined_in defaults |}.
+     m_context_id := m_context_id defaults; m_defined_in := m_defined_in defaults;
+     m_download := m_download defaults |}.
 
 Record minit := { mi_m : module }.
 
@@ -145,7 +147,7 @@ Definition init_module (name : option str) (context : option str) (is_binary : b
      m_relpath := Some (relpath_of filename); m_srcdir := m_srcdir m0;
      m_build_dep_files := m_build_dep_files m0; m_is_build_dep := m_is_build_dep m0;
      m_is_global_build_dep := m_is_global_build_dep m0; m_is_binary := is_binary;
-     m_context_id := m_context_id m0; m_defined_in := Some filename |}.
+     m_context_id := m_context_id m0; m_defined_in := Some filename; m_download := m_download m0 |}.
 
 Definition opt_extend (a : option (list str)) (b : list str) : option (list str) := Some (odflt [] a ++ b).
 
@@ -162,7 +164,7 @@ Definition name_ok (y : ymod) : res unit :=
   | None => Ok tt
   end.
 
-Definition convert_module (y : ymod) (context : option str) (is_binary : bool) (filename : str)
+Definition convert_module (build_dir : str) (y : ymod) (context : option str) (is_binary : bool) (filename : str)
            (defaults : option module) : res module :=
   let m := init_module (ym_name y) context is_binary filename defaults in
   rbind (name_ok y) (fun _ =>
@@ -191,7 +193,13 @@ Definition convert_module (y : ymod) (context : option str) (is_binary : bool) (
                    | Some d => Some (d ++ odflt [] (ym_allowlist y))
                    | None => ym_allowlist y end in
   let relpath := odflt [ch_dot] (m_relpath m) in
-  let srcdir0 := if str_eqb relpath [ch_dot] then [] else relpath in
+  let srcdir0 := match ym_download y with
+                 | Some d => dl_srcdir build_dir d relpath (m_name m)
+                 | None => if str_eqb relpath [ch_dot] then [] else relpath end in
+  (* a downloading module exports its tag file and always is a build dependency *)
+  let dep_files := match ym_download y with
+                   | Some d => Some (iset_insert (dl_tagfile d srcdir0) (odflt [] (m_build_dep_files m)))
+                   | None => m_build_dep_files m end in
   let srcdir := match ym_srcdir y with Some s => s | None => srcdir0 end in
   let early := env_insert (S_ "srcdir") (Single srcdir)
                  (env_insert (S_ "root") (Single [ch_dot])
@@ -216,9 +224,11 @@ Definition convert_module (y : ymod) (context : option str) (is_binary : bool) (
         m_tasks := tasks; m_build := ym_build y;
         m_env_local := el; m_env_export := ee; m_env_global := eg1; m_env_early := early;
         m_relpath := Some relpath; m_srcdir := Some srcdir;
-        m_build_dep_files := m_build_dep_files m;
-        m_is_build_dep := ym_is_build_dep y; m_is_global_build_dep := ym_is_global_build_dep y;
-        m_is_binary := is_binary; m_context_id := m_context_id m; m_defined_in := Some filename |})))))))).
+        m_build_dep_files := dep_files;
+        m_is_build_dep := match ym_download y with Some _ => true | None => ym_is_build_dep y end;
+        m_is_global_build_dep := ym_is_global_build_dep y;
+        m_is_binary := is_binary; m_context_id := m_context_id m; m_defined_in := Some filename;
+        m_download := ym_download y |})))))))).
 
 (* convert_context, data.rs:463-620: the context and its context module *)
 Definition convert_context (y : yctx) (is_builder : bool) (filename : str) : res (context * module) :=
@@ -257,7 +267,7 @@ Definition convert_context (y : yctx) (is_builder : bool) (filename : str) : res
               m_env_export := []; m_env_global := []; m_env_early := []; m_relpath := m_relpath m0;
               m_srcdir := None; m_build_dep_files := None; m_is_build_dep := false;
               m_is_global_build_dep := false; m_is_binary := false; m_context_id := None;
-              m_defined_in := Some filename |} in
+              m_defined_in := Some filename; m_download := None |} in
   Ok (c, m)))).
 
 (* ---------- the file work-list, data.rs:406-461 ---------- *)
@@ -302,7 +312,7 @@ Fixpoint load_files (fuel : nat) (t : ytree) (pending : list finc) (pos : nat) (
 (* defaults, data.rs:925-985 (after the C15 fix: a context list in defaults and a failing
    conversion are errors; the pinned code panicked) *)
 Definition e_defaults := EOther (S_ "defaults").
-Definition get_defaults (d : ldoc) (dmap : list (nat * module)) (key_is_app : bool) : res (option module) :=
+Definition get_defaults (build_dir : str) (d : ldoc) (dmap : list (nat * module)) (key_is_app : bool) : res (option module) :=
   let inherited := match ld_included_by d with
                    | Some i => match find (fun km => Nat.eqb (fst km) i) dmap with Some km => Some (snd km) | None => None end
                    | None => None end in
@@ -313,7 +323,7 @@ Definition get_defaults (d : ldoc) (dmap : list (nat * module)) (key_is_app : bo
       | CList _ => Err e_defaults
       | c =>
           let ctx := match c with CSingle s => Some s | _ => None end in
-          match convert_module y ctx key_is_app (ld_file d) inherited with
+          match convert_module build_dir y ctx key_is_app (ld_file d) inherited with
           | Ok m => Ok (Some m)
           | Err _ => Err e_defaults
           | Panic n => Panic n
@@ -326,14 +336,14 @@ Definition get_defaults (d : ldoc) (dmap : list (nat * module)) (key_is_app : bo
 Definition contexts_of (c : ctxspec) : list (option str) :=
   match c with CNone => [None] | CSingle s => [Some s] | CList l => map Some l end.
 
-Definition add_modules (b : bag) (d : ldoc) (mods : list ymod) (is_binary : bool) (defaults : option module) : res bag :=
+Definition add_modules (build_dir : str) (b : bag) (d : ldoc) (mods : list ymod) (is_binary : bool) (defaults : option module) : res bag :=
   fold_left (fun acc y => rbind acc (fun b =>
      fold_left (fun acc c => rbind acc (fun b =>
-        rbind (convert_module y c is_binary (ld_file d) defaults) (add_module b)))
+        rbind (convert_module build_dir y c is_binary (ld_file d) defaults) (add_module b)))
         (contexts_of (ym_context y)) (Ok b))) mods (Ok b).
 
 (* load(), data.rs:395-1067: project file -> finalized bag with merged provides *)
-Definition load (t : ytree) (project_file : str) : res bag :=
+Definition load (t : ytree) (project_file : str) (build_dir : str) : res bag :=
   rbind (load_files (S (S (length t * 8))) t [(project_file, None)] 0 []) (fun '(docs, _) =>
   (* contexts and builders of all documents, contexts before builders within a document *)
   rbind (fold_left (fun acc d => rbind acc (fun '(b, cms) =>
@@ -347,17 +357,17 @@ Definition load (t : ytree) (project_file : str) : res bag :=
   rbind (finalize b0) (fun b1 =>
   rbind (fold_left (fun acc m => rbind acc (fun b => add_module b m)) ctx_modules (Ok b1)) (fun b2 =>
   rbind (fold_left (fun acc d => rbind acc (fun '(b, mmap, amap) =>
-           rbind (get_defaults d mmap false) (fun mdef =>
-           rbind (get_defaults d amap true) (fun adef =>
+           rbind (get_defaults build_dir d mmap false) (fun mdef =>
+           rbind (get_defaults build_dir d amap true) (fun adef =>
            let has_sub := match d_subdirs (ld_doc d) with Some _ => true | None => false end in
            let mmap1 := match has_sub, mdef with true, Some m => mmap ++ [(ld_idx d, m)] | _, _ => mmap end in
            let amap1 := match has_sub, adef with true, Some m => amap ++ [(ld_idx d, m)] | _, _ => amap end in
            rbind (match d_modules (ld_doc d) with
-                  | Some (Some l) => add_modules b d l false mdef
+                  | Some (Some l) => add_modules build_dir b d l false mdef
                   | _ => Ok b end) (fun b4 =>
            rbind (match d_apps (ld_doc d) with
-                  | Some (Some l) => add_modules b4 d l true adef
-                  | Some None => add_modules b4 d [ymod_default] true adef
+                  | Some (Some l) => add_modules build_dir b4 d l true adef
+                  | Some None => add_modules build_dir b4 d [ymod_default] true adef
                   | None => Ok b4 end) (fun b5 => Ok (b5, mmap1, amap1)))))))
          docs (Ok (b2, [], []))) (fun '(b3, _, _) =>
   Ok (merge_provides b3)))))).
